@@ -6,10 +6,10 @@ import (
 	"fmt"
 	"golang.org/x/tools/go/ssa"
 	"os"
-	"strings"
 	"path/filepath"
 	"runtime/debug"
 	"sort"
+	"strings"
 )
 
 // ruleFn analyses one loaded program (one platform) and appends obligations.
